@@ -424,6 +424,76 @@ def r8(ctx):
         ctx.check(mentions_call(e[2][1], r"ReadBuffer::readable$"), "parse_buffer:readable", "the parser sees the unread bytes only", pb.where(b.idx))
 
 
+def _order(body, a, b):
+    """(block, stmt) site a strictly precedes site b on every path (same block: earlier statement; else block dominance)."""
+    (ba, sa), (bb, sb) = a, b
+    if ba == bb:
+        return sa < sb
+    return body.block_dominates(ba, bb)
+
+
+def r9(ctx):
+    """The receive buffer's two indices: every ReadBuffer method does what its name says with begin / end, and compaction
+    (shift_unread_bytes) moves the unread bytes to the front and THEN rebases end by the OLD begin. A frame that straddles
+    the end of the buffer survives only if these three steps happen in this order."""
+    prog = ctx.prog
+    P = "link::reader::ReadBuffer::"
+    sh = prog.body(P + "shift_unread_bytes")
+    sym = ctx.sym(sh)
+    cw = call_sites(sh, r"copy_within$")
+    if len(cw) != 1:
+        raise AnchorError("shift_unread_bytes: copy_within")
+    e = sym.call_expr(cw[0].term)
+    ctx.check(mentions_field(e[2][1], "begin") and mentions_field(e[2][1], "end") and const_value(prog, e[2][2]) == 0, "shift:copy", "copy_within(begin..end, 0): %s" % expr_str(e)[:80], sh.where(cw[0].idx))
+    wr = {}
+    for b, si, st in sh.assigns():
+        if st.dest.proj and st.dest.proj[-1] in (".begin", ".end"):
+            wr.setdefault(st.dest.proj[-1], []).append((b.idx, si, sym.rvalue_expr(st.rv)))
+    ok_shape = len(wr.get(".begin", [])) == 1 and len(wr.get(".end", [])) == 1
+    ctx.check(ok_shape, "shift:writes", "begin and end are each written once", sh.where(line=sh.line))
+    if ok_shape:
+        bb_, bs_, be_ = wr[".begin"][0]
+        eb_, es_, ee_ = wr[".end"][0]
+        ctx.check(const_value(prog, be_) == 0, "shift:begin=0", "begin := 0", sh.where(bb_))
+        sub = [x for x in expr_walk(ee_) if x[0] == "bin" and x[1] in ("Sub", "SubWithOverflow")]
+        ctx.check(bool(sub) and any(mentions_field(x[2], "end") and mentions_field(x[3], "begin") for x in sub), "shift:end=end-begin", "end := end - begin (%s)" % expr_str(ee_)[:60], sh.where(eb_))
+        # the subtraction reads begin BEFORE it is zeroed, and both updates follow the copy
+        reads = [(b.idx, si) for b, si, st in sh.assigns() if st.rv.get("k") in ("bin", "checked") and mentions_field(sym.rvalue_expr(st.rv), "begin")]
+        reads = reads or [(eb_, es_)]
+        ctx.check(all(_order(sh, r_, (bb_, bs_)) for r_ in reads), "shift:rebases-before-zeroing", "end is rebased by the old begin before begin is zeroed", sh.where(bb_), bad_detail="shift_unread_bytes zeroes `begin` before `end -= begin` reads it: end keeps its old value, the buffer still looks full and the next read is handed an empty slice (frames straddling the end of the receive buffer are lost)")
+        ctx.check(sh.block_dominates(cw[0].idx, bb_) and sh.block_dominates(cw[0].idx, eb_) and cw[0].idx not in (bb_, eb_) or sh.block_dominates(cw[0].idx, bb_), "shift:copy-first", "the bytes are moved before the indices change", sh.where(cw[0].idx))
+    # the one-liners
+    def only_write(fn_, field, pred, what):
+        bd = prog.body(P + fn_)
+        s_ = ctx.sym(bd)
+        ws = [(b, s_.rvalue_expr(st.rv)) for b, si, st in bd.assigns() if st.dest.proj and st.dest.proj[-1] in (".begin", ".end")]
+        flds = [st.dest.proj[-1] for b, si, st in bd.assigns() if st.dest.proj and st.dest.proj[-1] in (".begin", ".end")]
+        ctx.check(flds == ["." + field] and pred(ws[0][1]), "%s" % fn_, what + " (%s)" % [expr_str(x)[:40] for _, x in ws], bd.where(line=bd.line))
+    add = lambda f: (lambda e: any(x[0] == "bin" and x[1] in ("Add", "AddWithOverflow") and mentions_field(x, f) and mentions_name(x, "count") for x in expr_walk(e)))
+    only_write("advance_write", "end", add("end"), "advance_write: end += count")
+    only_write("advance_read", "begin", add("begin"), "advance_read: begin += count")
+    for fn_, want in (("readable", ("begin", "end")), ("writable", ("end",))):
+        bd = prog.body(P + fn_)
+        s_ = ctx.sym(bd)
+        txt = " ".join(expr_str(s_.call_expr(b.term)) for b in bd.calls()) + " ".join(expr_str(e) for _, _, _, e in ret_sites(bd, s_))
+        ctx.check(all(("self." + w) in txt for w in want) and (fn_ != "writable" or "self.begin" not in txt), "%s" % fn_, "%s() is buffer[%s]" % (fn_, "..".join(want)), bd.where(line=bd.line), bad_detail="%s() = %s" % (fn_, txt[:120]))
+    ib = prog.body(P + "is_full")
+    gi_txt = " ".join(expr_str(e) for _, _, _, e in ret_sites(ib, ctx.sym(ib)))
+    ctx.check("Eq(self.end" in gi_txt and "len" in gi_txt, "is_full", "is_full: end == buffer.len() (%s)" % gi_txt[:60], ib.where(line=ib.line))
+    nb = prog.body(P + "num_bytes_unread")
+    t = " ".join(expr_str(e) for _, _, _, e in ret_sites(nb, ctx.sym(nb)))
+    ctx.check(re.search(r"Sub\w*\(self\.end, self\.begin\)", t) is not None, "num_bytes_unread", "num_bytes_unread: end - begin (%s)" % t[:60], nb.where(line=nb.line))
+    # read_more_data: compaction only when full; what was read is appended
+    rm = prog.abody("link::reader::Reader::read_more_data")
+    rs = ctx.sym(rm)
+    for c in call_sites(rm, r"ReadBuffer::shift_unread_bytes$"):
+        ctx.require_guards(rm, c.idx, [("buffer.is_full()", g_bool(lambda x: mentions_call(x, r"ReadBuffer::is_full$"), True))], "read_more_data:shift-when-full", "compaction")
+    aw = call_sites(rm, r"ReadBuffer::advance_write$")
+    ctx.check(len(aw) == 1 and mentions_call(rs.call_expr(aw[0].term)[2][1], r"PhysLayer::read$"), "read_more_data:advance-by-count", "advance_write(count returned by the read)", rm.where(aw[0].idx) if aw else rm.where(line=rm.line))
+    rd = call_sites(rm, r"PhysLayer::read$")
+    ctx.check(len(rd) == 1 and mentions_call(rs.call_expr(rd[0].term)[2][1], r"ReadBuffer::writable$"), "read_more_data:into-writable", "the physical layer reads into writable()", rm.where(rd[0].idx) if rd else rm.where(line=rm.line))
+
+
 RULES = [
     ("C06.R1", "T11", "CRC table / seed / link constants equal the standard and each other", r1),
     ("C06.R2", "T2/T8", "sync and header acceptance tests guard the state transitions", r2),
@@ -433,4 +503,5 @@ RULES = [
     ("C06.R6", "T6", "the formatter's field order and CRC helpers are the parser's", r6),
     ("C06.R7", "T2/T3", "discard mode skips one byte and resets; close mode propagates", r7),
     ("C06.R8", "T3", "datagram mode never stitches a frame across datagrams", r8),
+    ("C06.R9", "T8/T3", "receive buffer index discipline: compaction order, advance, readable/writable windows", r9),
 ]
